@@ -404,3 +404,47 @@ def run(ctx: Ctx, rep: Report, tier: str):
                           "min(max, min*mult^(k-1)) (e.g. the regular cadence when that is larger)" % arg)
     if seen != {"backoff", "cadence"} and all(i.verdict != "violation" for i in rep.instances if i.rule == "C18.L13"):
         rep.violation("C18.L13", "run|wait", rf, "run() does not have both waits (backoff value / regular cadence); found %s" % sorted(seen))
+    rep.rule("C18.L14", "an override of stop() in a service forwards the caller's `forever` AND `wait` to Runnable.stop (stop_all's signal-all-then-join-all relies on "
+             "stop(wait=False) not joining)", 2)
+    R_ = ctx.prog.cls("Runnable")
+    base = R_.methods["stop"]
+    bparams = [p_ for p_ in base.params()[1:]]
+    n14 = 0
+    for c_ in R_.all_subclasses():
+        ov = c_.methods.get("stop")
+        if ov is None:
+            continue
+        sup = [x for x in ctx.own_nodes(ov) if isinstance(x, ast.Call) and pat.match("super().stop($$$)", x) is not None]
+        agg = [x for x in ctx.own_nodes(ov) if isinstance(x, ast.Call) and pat.match("self.stop_all($$$)", x) is not None]
+        if not sup and agg:
+            # an aggregate of services (CloudSync): it must hand both arguments to stop_all
+            n14 += 1
+            own = ov.params()[1:]
+            used = {x.id for a_ in agg for x in ast.walk(a_) if isinstance(x, ast.Name)}
+            lost = [p_ for p_ in bparams if p_ in own and p_ not in used]
+            rep.check("C18.L14", "%s.stop|forwards" % c_.name, ctx.line(ov, agg[0]), not lost, "hands %s to stop_all" % [p_ for p_ in bparams if p_ in own],
+                      "%s.stop does not hand %s to stop_all" % (c_.name, lost))
+            continue
+        if not sup:
+            rep.violation("C18.L14", "%s.stop|super" % c_.name, ov, "%s.stop does not call Runnable.stop: the service is never asked to stop" % c_.name)
+            n14 += 1
+            continue
+        for s_ in sup:
+            n14 += 1
+            fixed = {k.arg: k.value for k in s_.keywords}
+            for i_, a_ in enumerate(s_.args):
+                if i_ < len(bparams):
+                    fixed[bparams[i_]] = a_
+            own = set(ov.params()[1:])
+            lost = []
+            for p_ in bparams:
+                if p_ in own:
+                    v_ = fixed.get(p_)
+                    # forwarded as is, or deliberately fixed to a constant (NotificationManager's self-stop passes forever=False)
+                    if v_ is None or (isinstance(v_, ast.Name) and v_.id != p_):
+                        lost.append(p_)
+            rep.check("C18.L14", "%s.stop|forwards" % c_.name, ctx.line(ov, s_), not lost, "forwards %s" % [p_ for p_ in bparams if p_ in own],
+                      "%s.stop accepts %s but does not forward it to Runnable.stop: a caller's stop(wait=False) joins the thread (stop_all signals the remaining services "
+                      "only after that join - or never, if the caller holds what the service waits for)" % (c_.name, lost))
+    if n14 == 0:
+        raise AnalysisError("no stop() override found in any Runnable subclass")
